@@ -3,6 +3,7 @@ package c07
 import (
 	"encoding/json"
 	"fmt"
+	"math"
 	"math/rand"
 	"strings"
 
@@ -284,6 +285,43 @@ func partLimits(k *checker, idx *int) {
 			}
 		}
 	}
+	// Boundary values of the integer: far beyond any list length, and far
+	// below zero. "First Limit matches when positive, all otherwise" has no
+	// upper bound on Limit.
+	huge := []int{math.MaxInt, 1 << 62, 1<<32 + 1, 1 << 31, math.MinInt, -(1 << 31)}
+	tms := []carddav.TextMatch{{Text: "a", MatchType: "equals"}}
+	for n := 0; n <= 5; n++ {
+		for pat := 0; pat < 1<<uint(n); pat++ {
+			for _, limit := range huge {
+				for _, outer := range []string{"", "allof"} {
+					for _, props := range [][]string{nil, {"FN"}} {
+						i := *idx
+						*idx++
+						if !c.Mine(i) {
+							continue
+						}
+						objs := make([]carddav.AddressObject, n)
+						for o := 0; o < n; o++ {
+							objs[o] = mkObject(o, mkCard((pat>>uint(o))&1))
+						}
+						q := &carddav.AddressBookQuery{
+							FilterTest:  carddav.FilterTest(outer),
+							PropFilters: []carddav.PropFilter{{Name: "FN", TextMatches: tms}},
+							Limit:       limit,
+							DataRequest: carddav.AddressDataRequest{Props: props},
+						}
+						tc := &tcase{Kind: "filter", Query: q, Objects: objs}
+						// journalled: code that sizes something by Limit may die
+						// in a way recover() cannot catch (out of memory)
+						c.Journal(tc)
+						k.exec(tc, "limits: boundary values of Limit (exhaustive)")
+						c.JournalDone()
+					}
+				}
+			}
+		}
+	}
+	c.Note("exhaustive_limit_boundaries", fmt.Sprintf("lists of 0..5 objects, every {match, no match} pattern, Limit in %v, outer test {default, allof}, address-data {none, FN}", huge))
 	c.Note("exhaustive_limits", "lists of 0..5 objects, every pattern over {match, no match} and over {match, no match, ⊥}, Limit -1..len+1, outer test {default, anyof, allof}, address-data {none, FN, NOTE}")
 }
 
@@ -444,7 +482,7 @@ func rndCard(r *rand.Rand) vcard.Card {
 					f.Params["TYPE"] = append(f.Params["TYPE"], "pref")
 				}
 				if r.Intn(3) == 0 {
-					f.Params["PREF"] = []string{"1"}
+					f.Params["PREF"] = []string{[]string{"1", "2", "50", "100"}[r.Intn(4)]}
 				}
 			}
 			card[key] = append(card[key], f)
@@ -558,6 +596,9 @@ func rndQuery(r *rand.Rand, objs []carddav.AddressObject) *carddav.AddressBookQu
 		q.PropFilters = append(q.PropFilters, pf)
 	}
 	q.Limit = r.Intn(len(objs)+3) - 1
+	if r.Intn(12) == 0 {
+		q.Limit = []int{math.MaxInt, 1 << 62, 1<<32 + 1, 1 << 31, math.MinInt, -(1 << 31), 1}[r.Intn(7)]
+	}
 	switch r.Intn(10) {
 	case 0:
 		q.DataRequest.AllProp = true
@@ -644,6 +685,79 @@ func partAliasing(k *checker, idx *int) {
 	c.Note("exhaustive_aliasing", fmt.Sprintf("every ordered subset (>=2) of %q as the longer list, every proper prefix of it as DataRequest.Props in the same backing array, 16 cards, 2 filters, Limit {0,2}; besides, EVERY case hands every slice (Props, PropFilters, TextMatches, Params, the object list, card field lists, field parameter values) to the library with spare capacity filled with sentinels and compares the whole backing arrays afterwards", names))
 }
 
+// --- part H: several instances of one property, preference parameters ---------------
+
+func partInstances(k *checker, idx *int) {
+	c := k.c
+	// how an instance is decorated: nothing, PREF=n, Apple-style TYPE=pref, other params
+	decos := []vcard.Params{
+		nil,
+		{"PREF": {"1"}},
+		{"PREF": {"50"}},
+		{"PREF": {"100"}},
+		{"TYPE": {"home", "pref"}},
+		{"TYPE": {"work"}, "LANGUAGE": {"en"}},
+	}
+	values := []string{"a", "b", "c"}
+	mk := func(t string, neg bool, text string) carddav.TextMatch {
+		return carddav.TextMatch{Text: text, NegateCondition: neg, MatchType: carddav.MatchType(t)}
+	}
+	var pfs []carddav.PropFilter
+	pfs = append(pfs, carddav.PropFilter{Name: "EMAIL"}, carddav.PropFilter{Name: "EMAIL", IsNotDefined: true})
+	for _, v := range []string{"a", "b", "c", "z"} {
+		for _, t := range []string{"equals", "contains", "starts-with", "ends-with"} {
+			for _, neg := range []bool{false, true} {
+				pfs = append(pfs, carddav.PropFilter{Name: "EMAIL", TextMatches: []carddav.TextMatch{mk(t, neg, v)}})
+			}
+		}
+		for _, test := range []string{"anyof", "allof"} {
+			pfs = append(pfs,
+				carddav.PropFilter{Name: "EMAIL", Test: carddav.FilterTest(test), TextMatches: []carddav.TextMatch{mk("equals", false, v), mk("equals", true, "b")}},
+				carddav.PropFilter{Name: "EMAIL", Test: carddav.FilterTest(test), TextMatches: []carddav.TextMatch{mk("contains", false, v), mk("bogus-match", false, "x")}},
+				carddav.PropFilter{Name: "EMAIL", Test: carddav.FilterTest(test), TextMatches: []carddav.TextMatch{mk("equals", false, v)},
+					Params: []carddav.ParamFilter{{Name: "PREF"}}},
+			)
+		}
+	}
+	for nInst := 2; nInst <= 3; nInst++ {
+		combos := 1
+		for i := 0; i < nInst; i++ {
+			combos *= len(decos)
+		}
+		for combo := 0; combo < combos; combo++ {
+			for pi := range pfs {
+				for _, outer := range []string{"", "allof"} {
+					i := *idx
+					*idx++
+					if !c.Mine(i) {
+						continue
+					}
+					card := cardWith(nil)
+					x := combo
+					for f := 0; f < nInst; f++ {
+						var params vcard.Params
+						if d := decos[x%len(decos)]; d != nil {
+							params = vcard.Params{}
+							for pk, pv := range d {
+								params[pk] = append([]string{}, pv...)
+							}
+						}
+						x /= len(decos)
+						card["EMAIL"] = append(card["EMAIL"], &vcard.Field{Value: values[f], Params: params})
+					}
+					q := &carddav.AddressBookQuery{FilterTest: carddav.FilterTest(outer), PropFilters: []carddav.PropFilter{pfs[pi]}}
+					obj := mkObject(0, card)
+					k.exec(&tcase{Kind: "match", Query: q, Objects: []carddav.AddressObject{obj}}, "instances: 2-3 fields of one name x preference parameters (exhaustive)")
+					if combo%7 == 0 {
+						k.exec(&tcase{Kind: "filter", Query: q, Objects: []carddav.AddressObject{obj, mkObject(1, cardWith(nil))}}, "instances: through Filter")
+					}
+				}
+			}
+		}
+	}
+	c.Note("exhaustive_instances", fmt.Sprintf("EMAIL with 2 and 3 instances of distinct values [a b c], every assignment of %d decorations (none, PREF=1/50/100, TYPE=pref, unrelated parameters) to the instances, %d prop-filters (presence, is-not-defined, each match type x negate against a value held by the first / a later / no instance, two-element anyof/allof lists, with an unknown match type, with a parameter filter), outer test {default, allof}", len(decos), len(pfs)))
+}
+
 // --- part G: Filter, then Match on what Filter returned ---------------------------
 
 func partChain(k *checker, idx *int) {
@@ -718,6 +832,7 @@ func c07Run(c *fw.Ctx) {
 	partProjections(k, &idx)
 	partAliasing(k, &idx)
 	partChain(k, &idx)
+	partInstances(k, &idx)
 	k.flush()
 	partRandom(k)
 	k.flush()
@@ -763,7 +878,7 @@ func init() {
 			"a query without any prop-filter: allof must match; anyof/default is accepted either way (\"at least one of none\" vs. \"no restriction\"); unknown test accepted either way or as error",
 			"is-not-defined together with text-matches or parameter filters (and a parameter filter with both is-not-defined and a text-match) is outside the domain (the types document they must be unset), and so is a prop-filter with an empty property name: only non-modification is checked",
 			"a test or match type that equals a known one up to ASCII case (\"ANYOF\", \"Equals\") may be treated as unknown or as that known value",
-			"several instances of a property: a verdict is demanded only if every single instance on its own and the per-text-match existential reading agree (covers first/last/any/every)",
+			"several instances of a property: a verdict is demanded only where the readings 'the first instance in card order', 'some instance satisfies the filter' and 'each text-match is satisfied by some instance' agree (first instance matches -> true; nothing matches under any of them -> false)",
 			"parameter filters may be ignored or applied (their outcome is left free); property names and group prefixes may be compared exactly or case-insensitively; text may be compared exactly or ASCII-case-insensitively; on non-ASCII text only exact hits are demanded",
 			"projection: a card without VERSION is outside the domain; ContentLength of a projected object is not constrained; Path, ETag and ModTime must be preserved; a requested name matching a card key only up to case may or may not be included",
 			"Match(nil, …) is not covered by the statement (only Filter with a nil query is)",
